@@ -268,8 +268,13 @@ def decide(prop, tier, seed, keep=None):
     fl = findings.load()
     units = all_units()
     mine = {}
+    broken = []
     for name, path in units.items():
-        u = assemble.load_unit(path)
+        try:
+            u = assemble.load_unit(path)
+        except Exception as ex:   # a unit description that does not even load: undecided, never an alarm
+            broken.append((name, '%s: %s' % (type(ex).__name__, ex)))
+            continue
         if prop in unit_props(u):
             mine[name] = (path, u)
     if not mine:
@@ -308,6 +313,9 @@ def decide(prop, tier, seed, keep=None):
         if keep:
             shutil.copytree(work, keep, dirs_exist_ok=True)
         shutil.rmtree(work, ignore_errors=True)
+    for name, why in broken:
+        results.append({'unit': name, 'status': 'undecided', 'obligations': [], 'functions': [], 'trusted': [],
+                        'notes': ['unit description does not load (%s)' % why]})
     results.sort(key=lambda r: r['unit'])
     return report(prop, pinfo, tier, seed, results, fl, time.time() - t0)
 
